@@ -111,6 +111,16 @@ CHECKS = {
             'executed environment call must lead to its original line.',
             'Message containment; non-user frames between user frames allowed; one statement per line.',
             'DESIGN.md 2/C12'),
+    'C14': ('exploration',
+            'exhaustive enumeration of call shapes x value alphabets per substituted builtin, differential against the builtin; context builtins in enumerated nestings x all tapes',
+            '2.5k calls covering every call shape of the 13 substituted builtins (optional parameters absent / positional / keyword) '
+            'over value alphabets incl. nan/inf/-0.0, numeric and non-numeric strings, one-shot iterators, generators, counting '
+            'sources, tied sort keys, dunder-implementing objects and rejected values, each made through overload_of() and through '
+            'converted_call(): equal result, equal item sequence and laziness, equal captured output, same exception type; plus '
+            'eval / locals / globals / super() at nesting depth 0-3 of if/for/while bodies on all tapes.',
+            'Call shapes the builtin itself rejects may be accepted by the substitute. Known finding: eval cannot see variables '
+            'named only inside the evaluated string when called from a functionalised body.',
+            'DESIGN.md 2/C14'),
     'C17': ('exploration',
             'bounded-exhaustive program x option-set enumeration; the tree handed to loader.load_ast is checked against its own printed, loaded and re-parsed form',
             'For ~10.6k (program, option set, with/without __future__ import) combinations (C01 menus + a 23-kind literal/expression '
